@@ -433,7 +433,9 @@ Section Store.
          | None => Some s
          end.
 
-  Inductive sstep := SPut (k : bytes) | SRemove (k : bytes) | SRestart.
+  (* SPutSame: put_verified of bytes that are still in the read cache returns Ok before any capacity
+     decision and changes nothing (outcome 2 in the recorded histories) *)
+  Inductive sstep := SPut (k : bytes) | SPutSame (k : bytes) | SRemove (k : bytes) | SRestart.
 
   (* result code: 0 = Ok, 1 = MaxRecords *)
   Definition store_step (max_records : N) (s : store_t) (st : sstep) : store_t * N :=
@@ -442,6 +444,7 @@ Section Store.
                 | Some s' => (store_mark_as_stored k s', 0)
                 | None => (s, 1)
                 end
+    | SPutSame _ => (s, 2)
     | SRemove k => (store_remove k s, 0)
     | SRestart => ((fst s, calc_farthest (fst s)), 0)
     end.
@@ -586,7 +589,7 @@ Section Agree.
   Definition store_record_keys (r : store_record) : list bytes :=
     match r with
     | (st, (pre_held, pre_far), _, _) =>
-        match st with SPut k | SRemove k => [k] | SRestart => [] end ++ pre_held
+        match st with SPut k | SPutSame k | SRemove k => [k] | SRestart => [] end ++ pre_held
     end.
 
   (* a recorded store history; distances are computed once per key (see agree_fetch_sched) *)
